@@ -458,6 +458,134 @@ func (w *World) do(op Op) string {
 			nitErr = e
 		}
 		return visObs(vs, op.WV, false, nitErr)
+	case "itx":
+		// an iterator driven by a script of N(ext) / C(lose) commands (op.Val)
+		before := runtime.NumGoroutine()
+		it := c.IterateAscend(op.Key, op.WV)
+		var sb strings.Builder
+		sb.WriteString("it")
+		for _, cmd := range op.Val {
+			switch cmd {
+			case 'N':
+				if it.Next() {
+					r := it.Result()
+					v := "*"
+					if op.WV {
+						v = hx(fullVal(r))
+					}
+					fmt.Fprintf(&sb, " %s/%s/%d", hx(r.Key), v, r.Priority)
+				} else {
+					sb.WriteString(" F")
+				}
+			case 'C':
+				it.Close()
+			}
+		}
+		it.Close() // an iterator is abandoned by closing it
+		if it.Next() {
+			sb.WriteString(" next-after-close-returned-true")
+		}
+		if it.Err() != nil {
+			sb.WriteString(" err")
+		}
+		deadline := time.Now().Add(3 * time.Second)
+		for runtime.NumGoroutine() > before {
+			if time.Now().After(deadline) {
+				sb.WriteString(" producer-goroutine-still-running")
+				break
+			}
+			runtime.Gosched()
+			time.Sleep(20 * time.Microsecond)
+		}
+		return sb.String()
+	case "vmut":
+		// a visit whose visitor mutates the store it is visiting (the mutating goroutine may do that):
+		// the visit must keep delivering the version it started on
+		var vs []visited
+		other := s.GetCollection(op.Name + "-other")
+		var nerr error
+		err := c.VisitItemsAscendEx(op.Key, true, func(i *gkvlite.Item, d uint64) bool {
+			vs = append(vs, copyItem(i, d))
+			j := len(vs)
+			switch j % 3 {
+			case 0:
+				if _, e := c.Delete(i.Key); e != nil {
+					nerr = e
+				}
+			case 1:
+				if e := c.SetItem(&gkvlite.Item{Key: append([]byte("nest-"), i.Key...), Val: []byte{byte(j)}, Priority: int32(1000 + j)}); e != nil {
+					nerr = e
+				}
+			case 2:
+				if other != nil {
+					if e := other.SetItem(&gkvlite.Item{Key: append([]byte{}, i.Key...), Val: []byte("o"), Priority: int32(j)}); e != nil {
+						nerr = e
+					}
+				}
+			}
+			return op.N < 0 || len(vs) <= op.N
+		})
+		if err == nil {
+			err = nerr
+		}
+		return visObs(vs, true, false, err)
+	case "vall":
+		// a visit whose visitor calls every kind of read operation on the same store
+		var vs []visited
+		var nerr error
+		before := runtime.NumGoroutine()
+		note := func(e error) {
+			if e != nil {
+				nerr = e
+			}
+		}
+		err := c.VisitItemsDescendEx(op.Key, op.WV, func(i *gkvlite.Item, d uint64) bool {
+			vs = append(vs, copyItem(i, d))
+			if len(vs) <= 2 {
+				gi, e := c.GetItem(i.Key, true)
+				note(e)
+				w.release(s, c, gi)
+				_, e = c.Get(i.Key)
+				if w.RC == nil {
+					note(e)
+				}
+				c.Exist(i.Key)
+				mi, e := c.MinItem(false)
+				note(e)
+				w.release(s, c, mi)
+				ma, e := c.MaxItem(true)
+				note(e)
+				w.release(s, c, ma)
+				_, _, e = c.GetTotals()
+				note(e)
+				_, e = c.Len()
+				note(e)
+				s.GetCollectionNames()
+				it := c.IterateAscend([]byte{}, false)
+				for k := 0; k < 2 && it.Next(); k++ {
+				}
+				it.Close()
+				sn := s.Snapshot()
+				if sc := sn.GetCollection(op.Name); sc != nil {
+					note(sc.VisitItemsAscend([]byte{}, true, func(*gkvlite.Item) bool { return true }))
+				}
+				sn.Close()
+			}
+			return op.N < 0 || len(vs) <= op.N
+		})
+		if err == nil {
+			err = nerr
+		}
+		// the nested iterators' producers must exit too
+		deadline := time.Now().Add(3 * time.Second)
+		for runtime.NumGoroutine() > before {
+			if time.Now().After(deadline) {
+				return visObs(vs, op.WV, false, err) + " producer-goroutine-still-running"
+			}
+			runtime.Gosched()
+			time.Sleep(20 * time.Microsecond)
+		}
+		return visObs(vs, op.WV, false, err)
 	case "itasc", "itdesc":
 		var it gkvlite.ItemIterator
 		before := runtime.NumGoroutine()
@@ -659,6 +787,85 @@ func (w *World) Expect(op Op) string {
 		return visObs(vs, op.WV, false, nil)
 	case "len":
 		return fmt.Sprintf("l:%d", len(c.Items))
+	case "itx":
+		var seq []RefItem
+		for _, it := range c.Items {
+			if cmp(op.Key, it.Key) <= 0 {
+				seq = append(seq, it)
+			}
+		}
+		var sb strings.Builder
+		sb.WriteString("it")
+		pos, closed := 0, false
+		for _, cmdc := range op.Val {
+			switch cmdc {
+			case 'N':
+				if !closed && pos < len(seq) {
+					v := "*"
+					if op.WV {
+						v = hx(seq[pos].Val)
+					}
+					fmt.Fprintf(&sb, " %s/%s/%d", hx(seq[pos].Key), v, seq[pos].Prio)
+					pos++
+				} else {
+					sb.WriteString(" F")
+					closed = true
+				}
+			case 'C':
+				closed = true
+			}
+		}
+		return sb.String()
+	case "vall":
+		var vs []visited
+		for j := len(c.Items) - 1; j >= 0; j-- {
+			it := c.Items[j]
+			if cmp(op.Key, it.Key) > 0 {
+				vs = append(vs, visited{Key: it.Key, Val: it.Val, Prio: it.Prio})
+				if op.N >= 0 && len(vs) > op.N {
+					break
+				}
+			}
+		}
+		return visObs(vs, op.WV, false, nil)
+	case "vmut":
+		if h.RO {
+			return "?"
+		}
+		var vs []visited
+		var seq []RefItem
+		for _, it := range c.Items {
+			if cmp(op.Key, it.Key) <= 0 {
+				seq = append(seq, it)
+			}
+		}
+		other := r.Colls[op.Name+"-other"]
+		for _, it := range seq {
+			vs = append(vs, visited{Key: it.Key, Val: it.Val, Prio: it.Prio})
+			j := len(vs)
+			switch j % 3 {
+			case 0:
+				c.del(it.Key)
+			case 1:
+				nk := append([]byte("nest-"), it.Key...)
+				if len(nk) <= 0xffff {
+					if w.HeapOK != nil {
+						if q, ok := c.find(nk); ok && c.Items[q].Prio > int32(1000+j) {
+							w.HeapOK[op.Name] = false
+						}
+					}
+					c.set(RefItem{Key: nk, Val: []byte{byte(j)}, Prio: int32(1000 + j)})
+				}
+			case 2:
+				if other != nil {
+					other.set(RefItem{Key: it.Key, Val: []byte("o"), Prio: int32(j)})
+				}
+			}
+			if op.N >= 0 && len(vs) > op.N {
+				break
+			}
+		}
+		return visObs(vs, true, false, nil)
 	}
 	panic("unknown op (expect) " + op.K)
 }
